@@ -97,10 +97,7 @@ func NewWorld(cfg Config) *World {
 	verifrt.UseVirtualTickers(true)
 	verifrt.UseVirtualClock(true)
 	verifrt.SetClock(time.Unix(1_700_000_000, 0), time.Nanosecond)
-	key, err := crypto.HexToECDSA("4c0883a69102937d6231471b5dbb6204fe5129617082792ae468d01a3f362318")
-	if err != nil {
-		panic(err)
-	}
+	key := testKey()
 	if cfg.ReceiptCap <= 0 {
 		cfg.ReceiptCap = 4
 	}
@@ -795,4 +792,12 @@ func (w *World) projectLat(p *models.Participant) M {
 		left = -1 // underflow of the unsigned round counter
 	}
 	return M{"left": left, "open": open, "done": sortRows(done)}
+}
+
+func testKey() *ecdsa.PrivateKey {
+	key, err := crypto.HexToECDSA("4c0883a69102937d6231471b5dbb6204fe5129617082792ae468d01a3f362318")
+	if err != nil {
+		panic(err)
+	}
+	return key
 }
